@@ -545,6 +545,49 @@ func genC15(c *Ctx) {
 			if largest > 0 && got2 != total {
 				c.oracleFail("C15/list-random-count", fmt.Sprintf("listing with random counts returned %d bytes, directory serializes to %d", got2, total), line)
 			}
+			// the directory changes (at once: same second, same fid); rereading from offset 0 lists what is there now
+			if len(endsTxt) <= 60000 {
+				os.WriteFile(filepath.Join(dir, "zz-newcomer"), []byte("x"), 0o644)
+				if len(names) > 0 && r.Intn(2) == 0 {
+					os.RemoveAll(filepath.Join(dir, names[r.Intn(len(names))]))
+				}
+				var now []string
+				if des, err := os.ReadDir(dir); err == nil {
+					for _, de := range des {
+						now = append(now, de.Name())
+					}
+				}
+				sort.Strings(now)
+				var again []string
+				off = 0
+				okList := true
+				for rounds := 0; rounds < 100000; rounds++ {
+					b, err := e.c.Read(f.Fid, off, maxcnt)
+					if err != nil {
+						c.oracleFail("C15/reread", fmt.Sprintf("rereading after a change, at %d: %v", off, err), line)
+						okList = false
+						break
+					}
+					if len(b) == 0 {
+						break
+					}
+					for pos := 0; pos < len(b); {
+						d, _, amt, perr := g.UnpackDir(b[pos:], dotu)
+						if perr != nil {
+							okList = false
+							break
+						}
+						again = append(again, d.Name)
+						pos += amt
+					}
+					off += uint64(len(b))
+				}
+				sort.Strings(again)
+				if okList && strings.Join(again, "\x00") != strings.Join(now, "\x00") {
+					c.oracleFail("C15/reread-stale", fmt.Sprintf("after creating/removing entries, rereading from offset 0 on the same fid lists %d entries, the directory has %d", len(again), len(now)), line)
+				}
+				c.count("reread-after-change")
+			}
 		}
 		e.close()
 		c.emit(line, "*", true)
@@ -579,6 +622,12 @@ func mkTree(r *rand.Rand, root string, depth int) []tnode {
 			switch k := r.Intn(10); {
 			case k < 4 && d < depth:
 				if os.Mkdir(filepath.Join(root, p), 0o700+os.FileMode(r.Intn(64))) == nil {
+					// shared directories: sticky, setgid, setuid bits
+					if r.Intn(3) == 0 {
+						if fi, err := os.Lstat(filepath.Join(root, p)); err == nil {
+							os.Chmod(filepath.Join(root, p), fi.Mode().Perm()|[]os.FileMode{os.ModeSticky, os.ModeSetgid, os.ModeSetuid, os.ModeSticky | os.ModeSetgid}[r.Intn(4)])
+						}
+					}
 					nodes = append(nodes, tnode{p, "dir"})
 					rec(p, d+1)
 				}
@@ -588,6 +637,11 @@ func mkTree(r *rand.Rand, root string, depth int) []tnode {
 				}
 			default:
 				if os.WriteFile(filepath.Join(root, p), genBytes(r, r.Intn(300)), 0o600+os.FileMode(r.Intn(128))) == nil {
+					if r.Intn(6) == 0 {
+						if fi, err := os.Lstat(filepath.Join(root, p)); err == nil {
+							os.Chmod(filepath.Join(root, p), fi.Mode().Perm()|[]os.FileMode{os.ModeSetuid, os.ModeSetgid, os.ModeSticky}[r.Intn(3)])
+						}
+					}
 					nodes = append(nodes, tnode{p, "file"})
 				}
 			}
@@ -978,7 +1032,22 @@ func genC17(c *Ctx) {
 				p := []string{"a", "b", "d1/x"}[r.Intn(3)]
 				l := uint64([]int{0, 3, 100}[r.Intn(3)])
 				what = fmt.Sprintf("truncate %s to %d", p, l)
-				e9 = wstat(e.c, p, func(d *g.Dir) { d.Length = l })
+				if r.Intn(2) == 0 {
+					e9 = wstat(e.c, p, func(d *g.Dir) { d.Length = l })
+				} else {
+					// through a fid that is open (in any mode): still truncate(2) on the path
+					mode := []uint8{g.OREAD, g.OWRITE, g.ORDWR, g.OEXEC}[r.Intn(4)]
+					what = fmt.Sprintf("truncate %s to %d through a fid open with mode %d", p, l, mode)
+					if f, err := e.c.FOpen(p, mode); err != nil {
+						e9 = wstat(e.c, p, func(d *g.Dir) { d.Length = l })
+					} else {
+						d := &g.Dir{Type: 0xffff, Dev: 0xffffffff, Mode: 0xffffffff, Atime: 0xffffffff, Mtime: 0xffffffff,
+							Length: l, Uidnum: 0xffffffff, Gidnum: 0xffffffff, Muidnum: 0xffffffff}
+						d.Qid = g.Qid{Type: 0xff, Version: 0xffffffff, Path: 0xffffffffffffffff}
+						e9 = e.c.Wstat(f.Fid, d)
+						f.Close()
+					}
+				}
 				ep = os.Truncate(filepath.Join(twin, p), int64(l))
 			case 5: // chmod through wstat
 				p := live[r.Intn(len(live))]
